@@ -94,7 +94,9 @@ def run_seed(sid, props):
                          env={"ODXTOOLS_REPO": d, "SA_NO_EVIDENCE": "1"})
             viol = [l for l in out.splitlines() if l.startswith("  at ") or
                     l.startswith("ANALYSIS-ERROR")]
-            res["checks"][p] = {"rc": rc, "lines": viol[:6]}
+            rules = sorted({l.split()[1].rstrip(":") for l in out.splitlines()
+                            if l.startswith("  rule ")})
+            res["checks"][p] = {"rc": rc, "lines": viol[:6], "rules": rules}
         return res
     finally:
         shutil.rmtree(d, ignore_errors=True)
@@ -134,10 +136,12 @@ def main():
                 own = sid.split("-")[0]
                 props = cl if allp else [p for p in cl if p == own]
                 return run_seed(sid, props)
+            table = {}
             with cf.ThreadPoolExecutor(12) as ex:
                 for r in ex.map(job, ids):
                     own = r["seed"].split("-")[0]
                     caught = [p for p, c in r["checks"].items() if c["rc"] == 1]
+                    table[r["seed"]] = {p: r["checks"][p]["rules"] for p in caught}
                     err = [p for p, c in r["checks"].items() if c["rc"] == 2]
                     status = "CAUGHT" if caught else ("ANALYSIS-ERROR" if err else (
                         "missed" if r["checks"] else "no-check"))
@@ -147,6 +151,9 @@ def main():
                     for p in caught + err:
                         for l in r["checks"][p]["lines"][:3]:
                             print("     ", l.strip()[:200])
+            if "--table" in args:
+                json.dump(table, open(os.path.join(SEEDED, "CATCHES.json"), "w"), indent=1,
+                          sort_keys=True)
     finally:
         shutil.rmtree(WORK, ignore_errors=True)
     return 0
